@@ -4,5 +4,6 @@ seeds="$1"; shift
 for p in "$@"; do for s in $seeds; do
   out=$(VERIF_SEED=$s /verif/bin/verif check $p --tier quick 2>&1); rc=$?
   if [ $rc -ne 0 ]; then echo "== $p seed=$s exit=$rc"; echo "$out" | grep -E "^VIOLATION|^  class|HARNESS" | cut -c1-400; fi
+  if [ $rc -eq 2 ]; then echo "$out" > /tmp/multiseed-exit2-$p-$s.txt; fi
 done; done
 echo "multiseed done: $*"
